@@ -121,6 +121,19 @@ def r_point(ctx: Ctx, model, tr):
     ok_guard = len(guards) == 1
     ctx.ob(ok_guard, Finding("C11.S-point", fi.where, "point|guard", f"expected one out-of-range refusal, found {len(guards)}"),
            nontrivial_key=("point", "guard"))
+    # (2b) the refusal (interp_fill not given) covers pressures above the last data point only: below the first point the
+    #      algorithm integrates Henry's law (obligation 3), so a refusal there would make that part of the domain unanswerable
+    if ok_guard:
+        g = guards[0][0]
+        rels = list(g.args) if isinstance(g, sp.Or) else [g]
+        above = [r for r in rels if isinstance(r, (sp.StrictGreaterThan, sp.GreaterThan)) and r.lhs == p and str(r.rhs) == "max(P)"]
+        other = [r for r in rels if r not in above]
+        ctx.ob(len(above) == 1 and not other, Finding(
+            "C11.S-point", fi.where, "point|guard-region",
+            f"without interp_fill the method refuses when `{g}`; required: only `p > max(P)`. "
+            + ("A query below the first data point is refused although the spreading pressure there is the Henry's-law integral "
+               "L(0)/P(0)*p that the method itself computes" if other else "")),
+            nontrivial_key=("point", "guard-region"))
     # (3) early return: Henry continuation
     er = env.get("__early_returns__", [])
     n_count = [k for k in tr.definitions]
